@@ -265,6 +265,9 @@ def optimize_acqf_discrete(
     """
     candidate_list, acq_value_list = [], []
 
+    # A batch cannot be larger than the number of remaining choices.
+    q = min(q, len(choices))
+
     # TODO: Another batch selection method might be updating model at each step.
     # Either a fantasy update or a full update, i.e., adding samples along the way.
 
@@ -299,6 +302,9 @@ def optimize_decoupled_acqf_discrete(
         and their corresponding objective indices to evaluate.
     """
     saved_eval_i = acq.evaluation_index
+
+    # A batch cannot be larger than the number of remaining choices.
+    q = min(q, len(choices))
 
     candidate_list = np.empty((0, choices.shape[-1]))
     acq_values = np.empty(0)
